@@ -444,6 +444,10 @@ func (c *Ctx) structSort(t types.Type, u *types.Struct) string {
 					fs = "Int"
 				}
 			}()
+			if _, isPtr := f.Type().Underlying().(*types.Pointer); isPtr {
+				fs = "Int" // pointer-typed fields are opaque handles
+				return
+			}
 			fs = c.sortOf(f.Type())
 		}()
 		si.fields = append(si.fields, f.Name())
@@ -627,6 +631,9 @@ const prelude = `
 (declare-fun gs.fmtfloat (F64) Str)
 (declare-fun gs.frombyte ((_ BitVec 8)) Str)
 (declare-fun f.log (Real) Real)
+(declare-fun cig.type (Int) (_ BitVec 8))
+(declare-fun cig.typestr ((_ BitVec 8)) Str)
+(declare-fun cig.len (Int) Int)
 (declare-fun gs.sorted ((Array Int Str) Int Int) Bool)
 (declare-fun int.sorted ((Array Int Int) Int Int) Bool)
 (define-fun f.trunc ((a F64)) Int (ite (>= (f.val a) 0.0) (to_int (f.val a)) (- (to_int (- (f.val a))))))
@@ -645,6 +652,7 @@ const prelude = `
 (define-fun f.eq ((a F64) (b F64)) Bool (and (not (f.nan a)) (not (f.nan b)) (= (f.val a) (f.val b))))
 (assert (forall ((a Str) (b Str)) (! (= (gs.len (gs.cat a b)) (+ (gs.len a) (gs.len b))) :pattern ((gs.cat a b)))))
 (assert (forall ((a Str)) (! (>= (gs.len a) 0) :pattern ((gs.len a)))))
+(assert (forall ((o Int)) (! (>= (cig.len o) 0) :pattern ((cig.len o)))))
 (assert (forall ((A (Array Int Str)) (o Int) (n Int)) (! (= (gs.sorted A o n) (forall ((i Int) (j Int)) (=> (and (<= o i) (< i j) (< j (+ o n))) (not (gs.lt (select A j) (select A i)))))) :pattern ((gs.sorted A o n)))))
 (assert (forall ((A (Array Int Int)) (o Int) (n Int)) (! (= (int.sorted A o n) (forall ((i Int) (j Int)) (=> (and (<= o i) (< i j) (< j (+ o n))) (<= (select A i) (select A j))))) :pattern ((int.sorted A o n)))))
 (assert (forall ((a Str) (b Str) (j Int)) (! (= (gs.at (gs.cat a b) j) (ite (< j (gs.len a)) (gs.at a j) (gs.at b (- j (gs.len a))))) :pattern ((gs.at (gs.cat a b) j)))))
